@@ -172,6 +172,22 @@ def gen_registry(seed, n_base=3, n_derived=2, prefix='G', big=False):
             # inverse forms use the new type, which is fresh, so no further collisions
             types.append(gen_type(rnd, nm, used, 'ref', derive={'op': op, 'l': l, 'r': r}))
             break
+    # features the checks rely on are FORCED, not left to the draw (and without consuming random numbers):
+    # two units sharing a symbol (look-ups return the first in iteration order; unit tests by symbol are wrong),
+    # two non-reference units with the same scale written identically (ties keep attribute order)
+    def nonref(t):
+        return [u for u in t['units'] if not (u.get('def') or {}).get('ref')]
+    t0 = nonref(types[0])
+    if len(t0) >= 2:
+        t0[-1]['sym'] = t0[0]['sym']
+    if n_base >= 2:
+        t1 = nonref(types[1])
+        if len(t1) >= 2:
+            t1[-1]['lit'] = t1[0]['lit']
+            t1[-1]['def'] = dict(t1[0]['def'])
+    nrt = next(t for t in types if t['T'] == nr)
+    if len(nrt['units']) >= 3:
+        nrt['units'][2]['sym'] = nrt['units'][0]['sym']
     rate_pairs = [[names[0], names[1 % n_base]], [names[0], sg], [nr, names[0]]]
     return {'_comment': 'generated, seed %d' % seed, 'types': types, 'rate_pairs': rate_pairs,
             'rate_pairs_lite': [[names[0], 'Amount']], 'tables': [{'T': nr}]}
